@@ -64,7 +64,8 @@ def encodePixel (fmt : String) (r g b a : ExtReal) : Option Nat :=
 
 /-- `E <path> <format> <w> <h> <color> <pitchExtra> <content> <cseed> <quality> <dither> <metric> <parallel> <k|->`
 — colour, pitch, content, options do not influence the predicted result: that is the property.
-`Q <format> <r> <g> <b> <a>` -/
+`Q <format> <r> <g> <b> <a>`; `S <rbits> <gbits> <bbits>`;
+`U <format> <rbits> <gbits> <bbits> <abits>` -/
 def runC15 (line : String) : String :=
   match toks line with
   | ["E", path, fmt, w, h, color, pitch, content, cseed, q, d, m, par, k] =>
@@ -98,6 +99,32 @@ def runC15 (line : String) : String :=
       match encodePixel fmt r g b a with
       | some v => s!"px {v}"
       | none => "bad-case"
+    | _, _, _, _ => "bad-case"
+  | ["S", r, g, b] =>
+    -- bit patterns through the bit-level model of `rgb9995f::from_f32`; which zero `f32::max`
+    -- returns for `-0.0` against `+0.0` must not reach the encoded word: both extreme choices and
+    -- an alternating one are run, a difference would be printed (and disagree with the code)
+    match nat? r, nat? g, nat? b with
+    | some r, some g, some b =>
+      if r ≥ 2 ^ 32 ∨ g ≥ 2 ^ 32 ∨ b ≥ 2 ^ 32 then "bad-case" else
+      let v0 := SharedExp.fromF32 (fun _ => false) r g b
+      let v1 := SharedExp.fromF32 (fun _ => true) r g b
+      let v2 := SharedExp.fromF32 (fun i => i % 2 == 0) r g b
+      if v0 != v1 || v0 != v2 then "tie-dependent" else
+      match v0 with
+      | some v => s!"px {v}"
+      | none => "panic"
+    | _, _, _ => "bad-case"
+  | ["U", fmt, r, g, b, a] =>
+    -- bit patterns of an RGBA f32 pixel through the bit-level UNORM / SNORM8 quantisers
+    match nat? r, nat? g, nat? b, nat? a with
+    | some r, some g, some b, some a =>
+      if r ≥ 2 ^ 32 ∨ g ≥ 2 ^ 32 ∨ b ≥ 2 ^ 32 ∨ a ≥ 2 ^ 32 then "bad-case" else
+      if !["B5G6R5_UNORM", "B5G5R5A1_UNORM", "B4G4R4A4_UNORM", "A4B4G4R4_UNORM", "R10G10B10A2_UNORM",
+           "R8G8B8A8_SNORM"].contains fmt then "bad-case" else
+      match QuantBits.encode fmt r g b a with
+      | some v => s!"px {v}"
+      | none => "panic"
     | _, _, _, _ => "bad-case"
   | _ => "bad-case"
 
